@@ -5,6 +5,7 @@ import CoapLite.Driver.Pkt
 import CoapLite.Driver.Uint
 import CoapLite.Driver.Acc
 import CoapLite.Driver.Obs
+import CoapLite.Driver.Lf
 
 open CoapLite.Driver
 
@@ -17,6 +18,7 @@ def dispatch (line : String) : String :=
   | "RESP" :: rest => resp rest
   | "ACC" :: rest => acc rest
   | "OBS" :: rest => obs rest
+  | "LF" :: rest => lf rest
   | _ => "bad-domain"
 
 partial def loop (hin : IO.FS.Stream) (hout : IO.FS.Stream) (buf : String) (n : Nat) : IO Unit := do
